@@ -214,6 +214,14 @@ Definition sbinop (op : binop) (a b : sval) : option sval :=
   | _, _ => sbinop_sym op a b
   end.
 
+(** wrapping operators: constants are folded with overflow checks off; a symbolic shift needs an in-range amount,
+    for which checked and unchecked agree *)
+Definition swrapbinop (op : binop) (a b : sval) : option sval :=
+  match a, b with
+  | SConst va, SConst vb => lift (binop_eval false op va vb)
+  | _, _ => sbinop_sym op a b
+  end.
+
 Definition scast (a : sval) (t : ity) : option sval :=
   match a with
   | SConst v => lift (cast_eval v t)
@@ -315,6 +323,10 @@ Fixpoint seval (σ : senv) (e : expr) : option sval :=
   | ECustomNew ty a => match seval σ a with Some x => Some (SCustom ty x) | None => None end
   | ECustomRaw a => match seval σ a with Some (SCustom _ x) => Some x | _ => None end
   | EUnsupported _ => None
+  | EWrapBin op a b =>
+      match seval σ a, seval σ b with Some x, Some y => swrapbinop op x y | _, _ => None end
+  | EDebugAssert c body =>
+      match seval σ c with Some (SConst (VBool true)) => seval σ body | _ => None end
   end.
 
 (** ** Soundness *)
@@ -508,6 +520,12 @@ Proof.
   - apply bind_ok in H. destruct H as (x0 & Hx & H). destruct x0; try discriminate.
     injection H as <-. specialize (IHe _ _ Hρ Hx). exact IHe.
   - discriminate.
+  - apply bind_ok in H. destruct H as (x0 & Hx & H). apply bind_ok in H. destruct H as (y & Hy & H).
+    eapply binop_wf; [eapply IHe1|eapply IHe2|exact H]; eassumption.
+  - destruct c.
+    + apply bind_ok in H. destruct H as (x0 & Hx & H).
+      destruct x0 as [| [] |]; try discriminate. eapply IHe2; eassumption.
+    + eapply IHe2; eassumption.
 Qed.
 
 Lemma eval_mode_indep e : forall ρ v, eval true ρ e = Ok v -> forall c, eval c ρ e = Ok v.
@@ -528,6 +546,12 @@ Proof.
   - apply bind_ok in H. destruct H as (x0 & Hx & H). rewrite (IHe _ _ Hx c). exact H.
   - apply bind_ok in H. destruct H as (x0 & Hx & H). rewrite (IHe _ _ Hx c). exact H.
   - apply bind_ok in H. destruct H as (x0 & Hx & H). rewrite (IHe _ _ Hx c). exact H.
+  - apply bind_ok in H. destruct H as (x0 & Hx & H). apply bind_ok in H. destruct H as (y & Hy & H).
+    rewrite (IHe1 _ _ Hx c), (IHe2 _ _ Hy c). exact H.
+  - apply bind_ok in H. destruct H as (x0 & Hx & H).
+    destruct x0 as [| [] |]; try discriminate. destruct c.
+    + rewrite (IHe1 _ _ Hx true). cbn [bind]. now apply IHe2.
+    + now apply IHe2.
 Qed.
 
 (** *** soundness of the symbolic operators *)
@@ -697,6 +721,26 @@ Proof.
     + apply (sbitwise_sound ν OOr _ _ _ _ _ Da Db Hs); auto.
     + apply (sbitwise_sound ν OXor _ _ _ _ _ Da Db Hs); auto.
     + exact (sne0_sound ν _ _ _ _ _ Da Db Hs c).
+Qed.
+
+Lemma swrapbinop_sound ν op a b r va vb :
+  den ν a va -> den ν b vb -> swrapbinop op a b = Some r ->
+  exists v, binop_eval false op va vb = Ok v /\ den ν r v.
+Proof.
+  intros Da Db H.
+  assert (Hc : (exists ca cb, a = SConst ca /\ b = SConst cb) \/ sbinop_sym op a b = Some r).
+  { destruct a; destruct b; try (right; exact H); left; eauto. }
+  destruct Hc as [(ca & cb & -> & ->)|Hs].
+  - unfold swrapbinop in H. apply lift_ok in H. destruct H as (v & Hv & ->).
+    destruct Da as [<- Wa], Db as [<- Wb]. exists v. split; [exact Hv|].
+    split; [reflexivity|]. exact (binop_wf _ _ _ _ _ Wa Wb Hv).
+  - destruct op; cbn in Hs; try discriminate.
+    + exact (sshift_sound ν true _ _ _ _ _ Da Db Hs false).
+    + exact (sshift_sound ν false _ _ _ _ _ Da Db Hs false).
+    + apply (sbitwise_sound ν OAnd _ _ _ _ _ Da Db Hs); auto.
+    + apply (sbitwise_sound ν OOr _ _ _ _ _ Da Db Hs); auto.
+    + apply (sbitwise_sound ν OXor _ _ _ _ _ Da Db Hs); auto.
+    + exact (sne0_sound ν _ _ _ _ _ Da Db Hs false).
 Qed.
 
 Lemma snot_val_sound ν a r va :
@@ -921,6 +965,19 @@ Proof.
     destruct (IHe _ _ E1 ν ρ A c) as (v1 & -> & D1). cbn [bind].
     destruct v1 as [| |ty'' r]; try contradiction. destruct D1 as [_ D1]. eauto.
   - discriminate.
+  - (* EWrapBin *)
+    destruct (seval σ e1) as [x|] eqn:E1; [|discriminate].
+    destruct (seval σ e2) as [y|] eqn:E2; [|discriminate].
+    destruct (IHe1 _ _ E1 ν ρ A c) as (v1 & -> & D1).
+    destruct (IHe2 _ _ E2 ν ρ A c) as (v2 & -> & D2).
+    cbn [bind]. exact (swrapbinop_sound ν _ _ _ _ _ _ D1 D2 H).
+  - (* EDebugAssert *)
+    destruct (seval σ e1) as [x|] eqn:E1; [|discriminate].
+    destruct x as [[|[]|]| | |]; try discriminate.
+    destruct c.
+    + destruct (IHe1 _ _ E1 ν ρ A true) as (v1 & -> & D1). cbn [bind].
+      destruct D1 as [<- _]. exact (IHe2 _ _ H ν ρ A true).
+    + exact (IHe2 _ _ H ν ρ A false).
 Qed.
 
 Print Assumptions seval_sound.
